@@ -7,7 +7,7 @@ EXTENDS Naturals, Sequences, FiniteSets, TLC, Json, SequencesExt, IOUtils
 CONSTANTS MaxLen, Known
 NoDev == {}
 LuaDevs == {"LuaPositionalRenumbering", "LuaNumericNameClampedTo1000", "LuaPositionalFinalNewlineDropped"}
-KnownC14 == {"LuaNumericNameClampedTo1000"}
+KnownC14 == {"LuaNumericNameClampedTo1000", "LuaPositionalFinalNewlineDropped"}
 
 Ideal == INSTANCE ArgViews WITH Dev <- NoDev
 AsIs == INSTANCE ArgViews WITH Dev <- Known
